@@ -71,3 +71,6 @@ def _late_rules(rep, repo):
         protocol.rule_rejections(rep, repo, "C02-R10")
     with rep.isolated():
         protocol.rule_accepted_arities(rep, repo, "C02-R11")
+    from . import fsrules
+    with rep.isolated():
+        fsrules.rule_always_regenerates(rep, repo, "C02-R12")
